@@ -311,7 +311,7 @@ func clockValue(r *mrand.Rand) (time.Time, string) {
 	case 2:
 		return time.Unix(0, base*1e6+1), "ms+1ns"
 	case 3:
-		return time.Unix(0, base*1000*1e6), "s-exact"
+		return time.Unix(0, (base/1000)*1e9), "s-exact"
 	case 4:
 		return time.Unix(0, base*1e6+int64(r.Intn(1000000))), "ns-remainder"
 	case 5:
@@ -479,6 +479,8 @@ func runHistory(w *world, nSteps int, out *lib.Writer) {
 		return &trillian.QueueLeafResponse{QueuedLeaf: &trillian.QueuedLogLeaf{Leaf: proto.Clone(rq.Leaf).(*trillian.LogLeaf)}}, nil
 	}
 
+	firstIssuance := map[string]string{} // leaf DER -> issuance variant of its first accepted submission
+	conflictProblems, otherProblems := 0, 0
 	firstTS := map[string]uint64{}     // leaf DER -> timestamp of its first accepted submission
 	firstSigned := map[string][]byte{} // leaf DER -> bytes the log signed the first time
 	var coqSteps []string
@@ -544,7 +546,14 @@ func runHistory(w *world, nSteps int, out *lib.Writer) {
 		_, seen := firstTS[leafKey]
 		sr := stepRec{Item: it.name, Shape: it.shape, Pre: it.pre, ChainLen: len(it.submitted), ClockNs: now.UnixNano(), Clock: clockClass, Repeat: seen}
 		so := stepObs{Status: status, Queued: nQueue > 0, Issued: len(issued), Dup: lastDup}
+		// the stored entry of this leaf was derived from ANOTHER issuer chain (cross-certified pre-issuer)
+		conflict := seen && firstIssuance[leafKey] != it.issuance
 		problem := func(f string, a ...interface{}) {
+			if conflict && (strings.HasPrefix(f, "the SCT's signature does not verify") || strings.HasPrefix(f, "repeated submission: the signed bytes differ")) {
+				conflictProblems++
+			} else {
+				otherProblems++
+			}
 			if so.Problem == "" {
 				so.Problem = fmt.Sprintf(f, a...)
 			}
@@ -558,7 +567,9 @@ func runHistory(w *world, nSteps int, out *lib.Writer) {
 		} else if strings.Contains(it.shape, "root=included") {
 			tags = append(tags, "root:included")
 		}
-		if seen {
+		if conflict {
+			tags = append(tags, "submission:repeat-other-issuer-chain")
+		} else if seen {
 			tags = append(tags, "submission:repeat")
 		} else {
 			tags = append(tags, "submission:first")
@@ -612,7 +623,7 @@ func runHistory(w *world, nSteps int, out *lib.Writer) {
 			if len(issued) > 0 {
 				problem("status %d but an SCT was issued", status)
 			}
-			if it.expectOK {
+			if it.expectOK && !conflict {
 				problem("a valid submission was answered %d: %s", status, strings.TrimSpace(rec.Body.String()))
 			}
 		} else {
@@ -657,6 +668,10 @@ func runHistory(w *world, nSteps int, out *lib.Writer) {
 					problem("client signature input: %v", err)
 				} else if !verifyRaw(w.logKey.Public(), libInput, sct.Signature.Signature) {
 					problem("the SCT's signature does not verify over the entry the client derives from the submitted chain (library client path)")
+					// what DID the log sign?  (observed for the model comparison only)
+					if fs := firstSigned[leafKey]; fs != nil && verifyRaw(w.logKey.Public(), fs, sct.Signature.Signature) {
+						obsSigned = lib.Some(lib.Bytes(fs))
+					}
 				} else {
 					obsSigned = lib.Some(lib.Bytes(libInput))
 				}
@@ -729,6 +744,7 @@ func runHistory(w *world, nSteps int, out *lib.Writer) {
 				}
 				firstTS[leafKey] = sct.Timestamp
 				firstSigned[leafKey] = libInput
+				firstIssuance[leafKey] = it.issuance
 			}
 			// (5) RequestLog.IssueSCT carries that SCT
 			if len(issued) != 1 {
@@ -756,11 +772,16 @@ func runHistory(w *world, nSteps int, out *lib.Writer) {
 	if w.logKind == "rsa2048" {
 		kind = "KRsa"
 	}
+	note := strings.Join(notes, " | ")
+	if otherProblems == 0 && conflictProblems > 0 {
+		// the one known way to violate the property: see pending_fixes/C01-1.md
+		note = "cross-certified-preissuer-dedup: " + notes[0]
+	}
 	out.Add(lib.Case{
 		Coq:    fmt.Sprintf("CHistory %s %s %s %s", lib.Bytes(logSPKI), kind, lib.List(tab), "[\n   "+strings.Join(coqSteps, ";\n   ")+"]"),
 		Input:  map[string]interface{}{"log_key": w.logKind, "roots": len(w.roots), "steps": recs},
 		Impl:   obss,
-		PropOK: propOK, Note: strings.Join(notes, " | "), Tags: tags,
+		PropOK: propOK, Note: note, Tags: tags,
 	})
 }
 
